@@ -474,8 +474,8 @@ mcmc.compute_ess = lambda s, kind="bulk": Sym(z3.Function("ESS_" + kind, V, z3.R
 class AbsKernel:
     """abstract MCMC kernel: new choices KX(old choices, nonce); saves its accept flag(s)"""
 
-    def __init__(self, g, a, composite=False):
-        self.g, self.a, self.composite = g, a, composite
+    def __init__(self, g, a, composite=False, saves_accept=True):
+        self.g, self.a, self.composite, self.saves_accept = g, a, composite, saves_accept
         self.KX = z3.Function(engine().fresh_name("KX"), V, z3.IntSort(), V)
         self.KA = z3.Function(engine().fresh_name("KA"), V, z3.IntSort(), z3.RealSort())
         self.KA0 = z3.Function(engine().fresh_name("KA_first"), V, z3.IntSort(), z3.RealSort())
@@ -488,9 +488,44 @@ class AbsKernel:
         x2 = self.KX(xo, nu)
         if self.composite:  # a composite kernel saving several diagnostics: the last write per name is kept
             mcmc.save(accept=Sym(self.KA0(xo, nu)), aux=Sym(self.KA0(xo, nu)))
-        mcmc.save(accept=Sym(self.KA(xo, nu)))
+        if self.saves_accept:  # an exact Gibbs move / update-based move records no accept flag
+            mcmc.save(accept=Sym(self.KA(xo, nu)))
         g, a = self.g, self.a
         return AbsTrace(g, tr.args, Sym(x2), Sym(g.R(a, x2)), Sym(-g.D(a, x2)))
+
+
+class SymRange:
+    """`range(start, stop, step)` over symbolic static integers: length L (fresh, L*step >= stop-start > (L-1)*step, or 0)
+    and elements start + i*step; concrete arguments give a real range"""
+
+    def __new__(cls, *a):
+        if all(isinstance(x, int) for x in a):
+            return range(*a)
+        return object.__new__(cls)
+
+    def __init__(self, *a):
+        a = list(a)
+        if len(a) == 1:
+            a = [0, a[0], 1]
+        elif len(a) == 2:
+            a = [a[0], a[1], 1]
+        self.start, self.stop, self.step = (_lift(x) for x in a)
+        eng = engine()
+        eng.assume(self.step >= 1)
+        self.L = fresh("range_len", z3.IntSort())
+        rem = self.stop - self.start
+        eng.assume(z3.If(rem <= 0, self.L == 0, z3.And(self.L >= 1, self.L * self.step >= rem, (self.L - 1) * self.step < rem)))
+
+    def __len__(self):
+        raise EngineLimit("len() of a symbolic range (use __vt_len__)")
+
+    def __vt_len__(self):
+        return Sym(self.L)
+
+    def __getitem__(self, i):
+        if isinstance(i, int) and i < 0:
+            return Sym(self.start + (self.L + i) * self.step)
+        return Sym(self.start + _lift(i) * self.step)
 
 
 @contract("genjax.inference.mcmc:chain", ["C18"])
@@ -498,19 +533,20 @@ class ChainSingle(_NoReplay):
     """single chain, symbolic n_steps / burn_in / thinning: retained state j is kernel iterate burn_in + j*thinning,
     accepts[j] the flag saved in that iteration, rate their mean, n_steps the number retained"""
 
-    cases = ["simple_kernel", "composite_kernel"]
+    cases = ["simple_kernel", "composite_kernel", "kernel_without_accept_flag"]
 
     def call(self, case):
         reset()
         SAVE_LANES.clear()
         eng = engine()
+        mcmc.range = SymRange  # `range(b, n, k)` on symbolic static values (only its length / last element are used)
         self.g = AbsGF("target")
         self.args = (value("a0"),)
         self.a = enc_args(self.args, {})
         self.x0 = value("x0")
         g = self.g
         self.init = AbsTrace(g, (self.args, {}), self.x0, Sym(g.R(self.a, self.x0.e)), Sym(-g.D(self.a, self.x0.e)))
-        self.K = AbsKernel(g, self.a, composite=(case == "composite_kernel"))
+        self.K = AbsKernel(g, self.a, composite=(case == "composite_kernel"), saves_accept=(case != "kernel_without_accept_flag"))
         self.n, self.b, self.th = integer("n_steps"), integer("burn_in"), integer("thinning")
         eng.assume(z3.And(self.th.e >= 1, self.b.e >= 0, self.b.e < self.n.e))  # non-empty result
         run = self.real(self.fn, self.K)
@@ -524,10 +560,14 @@ class ChainSingle(_NoReplay):
         res = path.value
         n, b, th = self.n.e, self.b.e, self.th.e
         scans = path.extra.get("scans", [])
-        yield "one_scan_of_n_steps_iterations", len(scans) == 1 and z3.eq(z3.simplify(scans[0]["T"]), z3.simplify(n))
+        yield "one_scan_over_the_kernel", len(scans) == 1
         if len(scans) != 1:
             return
         rec = scans[0]
+        Tn = rec["T"]
+        jj = fresh("jj", z3.IntSort())
+        # the run is long enough for every retained step (running the discarded tail as well is allowed, not required)
+        yield "scan_runs_at_least_to_the_last_retained_step_and_at_most_n_steps", z3.And(Tn <= n, z3.Implies(z3.And(jj >= 0, b + jj * th < n), b + jj * th < Tn))
         t = rec["t"]
         yield "iteration_starts_from_the_initial_trace", rec["init"] is self.init
         # the next iteration starts from this iteration's output, and the output is what is collected
@@ -553,6 +593,12 @@ class ChainSingle(_NoReplay):
         yield "all_trace_fields_sliced_with_the_same_indices", isinstance(res.traces.score, Tensor) and z3.Implies(
             rng, res.traces.score.fn((j,)) == z3.substitute(_lift(y.score), (t, b + j * th))
         )
+        if case == "kernel_without_accept_flag":
+            xs_len = _lift(xs.shape[0]) if isinstance(xs, Tensor) else None
+            yield "exactly_the_retained_states_are_returned(as many as n_steps says)", xs_len is not None and xs_len == Le
+            yield "accepts_has_one_entry_per_retained_state", isinstance(res.accepts, Tensor) and _lift(res.accepts.shape[0]) == Le
+            yield "n_chains_recorded", res.n_chains.value == 1
+            return
         yield "accepts_j_is_the_flag_saved_in_that_iteration(last_write_wins)", isinstance(res.accepts, Tensor) and z3.Implies(rng, res.accepts.fn((j,)) == acc_t(b + j * th))
         yield "acceptance_rate_is_mean_of_accepts", same(res.acceptance_rate, Sym(mk_sum(Le, lambda i: res.accepts.fn((i,))) / z3.ToReal(Le)))
         yield "n_chains_recorded", res.n_chains.value == 1
